@@ -57,7 +57,9 @@ def run(ctx: Ctx) -> None:
             if depth and fi * fo * k <= 200_000 else "fresh"
         key = {"layer": kind, "fan_in": fi, "fan_out": fo, "kernel": k, "depth": depth, "container": container,
                "eta": eta, "optimizer": opt_name, "constraint": "default" if default_c else None, "built": built,
-               "unbatched": ci % 2 == 1, "tensor_lr": ci % 3 == 2, "bias": ci % 4 >= 2}
+               "unbatched": ci % 2 == 1, "tensor_lr": ci % 3 == 2, "bias": ci % 4 >= 2,
+               "hyperparameters": ("keywords", "group-options", "group-all")[ci % 5 % 3] if ci % 5 < 3 else "keywords",
+               "small_gradient": ci % 7 == 3}
         ctx.count(key, bucket=f"{kind}/{container or 'standalone'}")
 
         with_bias = ci % 4 >= 2      # a trainable bias next to the weight (its own update is taken out again below)
@@ -100,10 +102,19 @@ def run(ctx: Ctx) -> None:
             else:
                 x = (torch.randint(0, 2, (fi,) if unbatched else (1, fi)) * 2 - 1).to(dt)
             lr_arg = torch.tensor(eta, dtype=dt) if ci % 3 == 2 else eta      # float or 0-dim tensor learning rate
-            opt = getattr(uo, opt_name)(layer.parameters(), lr=lr_arg, eps=0.0, weight_decay=0.0)
+            # the hyper-parameters reach the optimizer as constructor keywords or as options of a parameter group
+            how = ("keywords", "group-options", "group-all")[ci % 5 % 3] if ci % 5 < 3 else "keywords"
+            if how == "keywords":
+                opt = getattr(uo, opt_name)(layer.parameters(), lr=lr_arg, eps=0.0, weight_decay=0.0)
+            elif how == "group-options":
+                opt = getattr(uo, opt_name)([{"params": list(layer.parameters()), "eps": 0.0, "weight_decay": 0.0}], lr=lr_arg)
+            else:
+                opt = getattr(uo, opt_name)([{"params": list(layer.parameters()), "eps": 0.0, "weight_decay": 0.0, "lr": lr_arg}])
             y0 = layer(x)
             g = torch.randn(y0.shape, dtype=dt)
             g = torch.where(g.abs() < 1e-3, torch.ones_like(g), g)
+            if ci % 7 == 3:
+                g = g * 10.0 ** rng.uniform(-6, 0)      # "any upstream gradient with no zero entries": small ones too
             y0.backward(g)
             b_old = layer.bias.detach().clone() if getattr(layer, "bias", None) is not None else None
             opt.step()
